@@ -63,6 +63,8 @@ def run(chk):
         tasks.append((f"Polygon-{mode}", lambda c, mode=mode: c.section(
             f"Polygon.is_inside[{mode}]", "coxeter.shapes.polygon::Polygon.is_inside", lambda: polygon_is_inside(c, shapes, ld, mode))))
     chk.run_parallel(tasks)
+    from .common import inherits
+    inherits(chk, shapes, "ConvexPolygon", "Polygon", ["is_inside"], "coxeter.shapes.polygon")
     from .bounded_c06 import run_bounded
     run_bounded(chk)
 
